@@ -6,6 +6,8 @@ From Verif Require Import Base.PyValue Model.Eval Model.Params Proofs.ParamsProo
 (* translator tie: required here, imported where the source theorems start (coqdep reads Requires reliably only
    in the header, see harness/PYMINI.md) *)
 From Verif Require Model.PyMini Model.PrimsApi Gen.SrcParams Proofs.SrcParams.
+(* group `attach` (bld-shell3): Connection.__init__ (whole) and Connection.attach, see the end of this file *)
+From Verif Require Model.PrimsAttach Gen.SrcAttach Proofs.SrcAttach.
 Open Scope Z_scope.
 
 (* For every history of parse / execute(parsed) / execute(text) / executemany on one
@@ -193,3 +195,41 @@ Example C09_source_example :
   call_method cr pr compiler_compile (cflds PNone PNone 9) [enc_query w; enc_params (Params.PSeq [VInt 100])]
     = Exc ParameterCount.
 Proof. repeat split; vm_compute; reflexivity. Qed.
+
+(* ---- group `attach` (bld-shell3): Gen/SrcAttach.v, regenerated on every run from beanquery.Connection.__init__ and
+   Connection.attach.  A connection has EXACTLY the attributes tables, options and errors (C09_source_connection_init_whole:
+   the object that only held its bound method attach holds afterwards these three and nothing else - a per-connection
+   cache added in __init__ changes the term and breaks this), attach is called exactly when a dsn is given, and
+   Connection.attach (C09_source_connection_attach) assigns no attribute itself: it hands the connection ITSELF, the dsn and
+   the keywords to attach of importlib.import_module("beanquery.sources." + urlparse(dsn).scheme).  What that module's
+   attach does to the three containers (sources/beancount.py: item assignment on context.tables, options.update,
+   errors.extend) is OUTSIDE the translated fragment (subscript assignment on another object's attribute). ---- *)
+Theorem C09_source_connection_init_whole : forall (call_ref : nat -> list pv -> pv) (msg : string -> list pv -> pv)
+    (kA : nat) (dsn kw : pv),
+  call_method call_ref (Model.PrimsAttach.prim_attach msg) Gen.SrcAttach.connection_init
+    [("attach"%string, PRef kA)] [dsn; kw] =
+  PyMini.bind (do_call call_ref (PRef Proofs.SrcAttach.kNull) []) (fun nt =>
+  let flds := Model.PrimsAttach.new_connection (PRef kA) nt in
+  if Proofs.SrcAttach.is_none dsn then Ok (flds, PNone)
+  else PyMini.bind (do_call call_ref (PRef kA) [dsn; kw]) (fun _ => Ok (flds, PNone))).
+Proof. exact Proofs.SrcAttach.connection_init_src. Qed.
+Print Assumptions C09_source_connection_init_whole.
+
+Theorem C09_source_connection_attach : forall (call_ref : nat -> list pv -> pv) (msg : string -> list pv -> pv)
+    (flds : env) (dsn kw : pv),
+  Proofs.SrcAttach.objects_ok call_ref ->
+  call_method call_ref (Model.PrimsAttach.prim_attach msg) Gen.SrcAttach.connection_attach flds [dsn; kw] =
+  PyMini.bind (Proofs.SrcAttach.attach_steps call_ref msg dsn kw) (fun _ => Ok (flds, PNone)).
+Proof. exact Proofs.SrcAttach.connection_attach_src. Qed.
+Print Assumptions C09_source_connection_attach.
+
+Theorem C09_source_attach_refs :
+  ref_of Gen.SrcAttach.refs "beanquery.tables.NullTable" = Some Proofs.SrcAttach.kNull /\
+  ref_of Gen.SrcAttach.refs "urllib.parse.urlparse" = Some Proofs.SrcAttach.kUrlparse /\
+  ref_of Gen.SrcAttach.refs "importlib.import_module" = Some Proofs.SrcAttach.kImport.
+Proof. exact Proofs.SrcAttach.refs_ok. Qed.
+Print Assumptions C09_source_attach_refs.
+
+(* the hypothesis is satisfiable: every opaque callable returns an opaque object *)
+Example C09_source_attach_objects_ok : Proofs.SrcAttach.objects_ok (fun k _ => PRef k).
+Proof. intros a. split; exact I. Qed.
